@@ -11,7 +11,7 @@ from .. import robust
 # S2: the arithmetic kernels of core.py are re-traced from the source on every run and the bridge theorems
 # (lean/Bridge/Drex.lean: traced_f = ModelR.f) are re-checked by the Lean kernel.
 PRE_LEAN = C.s2_trace_core
-EXTRA_LEAN_MODULES = ("Bridge.Drex", "Properties.C04Rhs")
+EXTRA_LEAN_MODULES = ("Bridge.Drex", "Bridge.DrexSlipRates", "Properties.C04Rhs")
 
 PARTIAL = [
     "integrated textures: LSODA's error weights are per component and therefore frame dependent, and extract_vars clips entries "
